@@ -132,6 +132,21 @@ def run_a(case):
             # the result of a parameterised container type is built by the args parsers: handing the caller's own list/set/dict
             # back means a later change of the result (or of a sibling result parsed from the same object) changes the input
             fails.append((f"result-of-a-parameterised-container-is-the-callers-object/{shared}", {"where": shared, "input": before}))
+    if out[0] == "ok" and out[1] is not entries.ABSENT and entry in ("call", "transform", "schema", "dataclass", "param") and not fails:
+        # a later parse of an equal input is independent of what the caller does to an earlier result: edit every mutable
+        # container of this result in place, then parse a fresh copy of the same input
+        first, _ = snapshot(oracle.plain(out[1]))
+        try:
+            mutate_everywhere(out[1])
+            edited = True
+        except Exception:
+            edited = False
+        if edited:
+            again = oracle.outcome(fn, codec.decode(vs))
+            if again[0] == "ok":
+                second, _ = snapshot(oracle.plain(again[1]))
+                if first != second:
+                    fails.append((f"later-parse-sees-an-edit-of-an-earlier-result/{_kind_at(spec, out)}", {"first": first, "later": second}))
     return {"status": out[0], "fails": fails, "changed": changed}
 
 
@@ -224,6 +239,8 @@ def mutables_in(x, out=None, depth=0):
 
 def mutate_everywhere(x):
     for m in mutables_in(x):
+        if type(m) not in (list, dict, set):
+            continue        # data class instances guard their own mutation (C07)
         if isinstance(m, list):
             m.append("MUT")
         elif isinstance(m, dict):
@@ -567,6 +584,20 @@ def campaign(ctx):
                     body({"part": "b", "form": form, "base": base, "default": dv})
         ctx.extra["b_cases"] = n
         ctx.extra["b_exhaustive"] = True
+    # text inputs (JSON / literal spellings of nested containers) into unparametrised slots: enumerated completely
+    if ctx.shard == 0:
+        L = lambda o: {"k": "leaf", "o": o}
+        holder = {"k": "data", "d": {"name": "H19", "base": "schema", "fields": [{"name": "tags", "type": L("list")}, {"name": "meta", "type": L("dict"), "f": {"plain_default": {"v": {"t": "dict", "v": []}}}}]}}
+        slots = [L("list"), L("dict"), L("tuple"), {"k": "dict", "key": L("str"), "val": L("list")}, {"k": "list", "a": L("dict")}, {"k": "opt", "a": L("list"), "m": "annotate"}, holder]
+        texts = ["[[1, 2], [3]]", '{"tags": ["a"], "meta": {"k": [1]}}', '{"a": {"b": [1]}}', '[{"x": [1]}]', "[[], [[]]]", "{'a': [1, 2]}", '[["a", {"b": []}]]']
+        for spec in slots:
+            for text in texts:
+                for entry in ("transform", "schema", "param") if spec["k"] != "data" else ("transform", "schema"):
+                    ctx.ev()
+                    try:
+                        body({"part": "a", "type": spec, "value": text, "options": {}, "entry": entry})
+                    except HarnessError:
+                        ctx.label("grid_case_refused")
     # (d) order independence across fresh interpreters (state kept in the library itself is invisible to a re-declaration)
     if ctx.shard == 1 % ctx.nshards:
         ctx.ev()
